@@ -70,6 +70,7 @@ PATTERN_TEXTS = [
     "5 * (8h * t)", "2 + (3 + x)", "2 * (3 * x)", "2 + ((3 + x) + y)", "2 * ((3 * x) * y)",
     "(7q * 10y^3) * x", "7q * 10y^3", "7 * (10y^3 * x)", "792z^4 * (490f * q^3)", "(7q * z) * ((10y * z) * x)",
     "(u^3 * 36c^6) * 7u^3", "(u * (36 * c)) * (7 * u)", "2 = 3", "2 + 3 = 5", "1 / 0", "0 ^ -1", "x + 2 / 0",
+    "(x + 2) / 1", "4y^2 / 1", "x / 1", "(x + 2) / -1", "z / 1 + 2", "1 / 1", "-(3 + 2)", "-(4 - 3)", "-(2 * 3)", "-(x + 2) / 1",
     "0.00002 * (0.00003 * x)", "x + (0.0000000004 + 0.0000000003) * 10000000000", "0.00002 * 0.00003 * y",
     "0.00001x + 0.00002x", "0.000001 * 0.000002", "y * 0.00005 * 0.00007", "0.0000000004 + 0.0000000003",
     "2 - (3 - x)", "2 * (3 + x)", "2 + (3 * x)", "4 ^ 0.5", "2 ^ -1", "0 ^ 0", "-(2 = 2)",
